@@ -351,13 +351,26 @@ static void Array_Push_At(var self, var obj, var key) {
   
   a->nitems++;
   Array_Reserve_More(a);
+  a->nitems--;
   
-  memmove((char*)a->data + Array_Step(a) * (i+1),
-          (char*)a->data + Array_Step(a) * (i+0), 
-          Array_Step(a) * ((a->nitems-1) - i));
+  /*
+  ** The new element is built in the free slot behind the last one and only
+  ** then moved into place: assign may raise, and must then leave the Array
+  ** as it was (compare Array_Push).
+  */
+  Array_Alloc(a, a->nitems);
+  assign(Array_Item(a, a->nitems), obj);
   
-  Array_Alloc(self, i);
-  assign(Array_Item(a, i), obj);
+  size_t step = Array_Step(a);
+  for (size_t k = a->nitems; k > (size_t)i; k--) {
+    char* hi = (char*)a->data + step * k;
+    char* lo = hi - step;
+    for (size_t b = 0; b < step; b++) {
+      char c = hi[b]; hi[b] = lo[b]; lo[b] = c;
+    }
+  }
+  
+  a->nitems++;
 }
 
 static void Array_Pop(var self) {
